@@ -22,7 +22,7 @@ RULE = ("4 of 5 runs: battery bench without noise (ideal, two-stage continuous, 
         "pre-state: T = T/2 twice, monotone in pilot and in T, zero pilot, reset; 1 of 5: every Battery.charge executed "
         "inside a whole simulation; non-trivial = a call crosses the (pilot-dependent) transition SoC; distinct = distinct "
         "(class, calc, crossing pattern, pilot regime, length)")
-PROBES = ["crossing_call", "above_transition_call", "below_transition_call", "pilot_capped_by_max", "fill_capped",
+PROBES = ["charged_at_another_voltage", "crossing_call", "above_transition_call", "below_transition_call", "pilot_capped_by_max", "fill_capped",
           "rk4_crosscheck", "half_twice", "monotone_pilot", "monotone_T", "zero_pilot", "reset", "in_sim_calls", "json_restart"]
 FAULT_DIMENSION = "none - state distribution only (pure function of state and arguments)"
 REAL_VS_STUB = "real: Battery, Linear2StageBattery (+ EV/EVSE/Simulator in the in-simulation layer); ours: closed-form / RK4 reference"
@@ -120,6 +120,10 @@ def check(sc):
             if post[0] != b["init"] or post[1] != 0:
                 out.add("C14/reset", "call %d: reset() left charge %r (initial %r), power %r" % (i, post[0], b["init"], post[1]))
             return
+        nonlocal V
+        V = op.get("voltage", sc["voltage"])
+        if "voltage" in op:
+            out.probe("charged_at_another_voltage")
         pilot, period = op["pilot"], op["period"]
         log.append((i, repr(rate), repr(post[0])))
         if law_check(out, "call %d" % i, b, pre[0], pilot, V, period, rate, post[0]):
@@ -169,7 +173,7 @@ def check(sc):
             used = build_battery(b)
             for op in sc["ops"][:5]:
                 if op["op"] == "charge":
-                    used.charge(op["pilot"], V, op["period"])
+                    used.charge(op["pilot"], op.get("voltage", sc["voltage"]), op["period"])
             used.reset()
             a1 = fresh._to_dict({})[0]
             a2 = used._to_dict({})[0]
